@@ -448,6 +448,9 @@ func build(t reflect.Type, mode popMode, k int, depth int) reflect.Value {
 	case reflect.Pointer:
 		p := reflect.New(t.Elem())
 		p.Elem().Set(build(t.Elem(), mode, k, depth))
+		if t.Elem().Kind() == reflect.Bool && !hasCustomEncoder(t.Elem()) {
+			p.Elem().SetBool(k%2 == 0) // an optional boolean that is present is true or false: neighbours in a list differ
+		}
 		return p
 	case reflect.Interface:
 		if t == objType {
@@ -997,6 +1000,41 @@ func TestMessages(t *testing.T) {
 					}()
 				}
 			}
+		}
+	}
+	// key blocks (hand-written decoder: not among the structure cases): every combination of the optional members - compression type,
+	// key value (plain; wrapped when wrapping data is present), algorithm, length, wrapping data - inside a Get response
+	for mask := 0; mask < 32; mask++ {
+		kb := kmip.KeyBlock{KeyFormatType: kmip.KeyFormatTypeRaw}
+		if mask&1 != 0 {
+			kb.KeyCompressionType = kmip.KeyCompressionTypeECPublicKeyTypeUncompressed
+		}
+		if mask&2 != 0 {
+			if mask&16 != 0 {
+				kb.KeyValue = &kmip.KeyValue{Wrapped: &[]byte{0xA1, 0xA2, 0xA3, 0xA4, 0xA5}}
+			} else {
+				kb.KeyValue = &kmip.KeyValue{Plain: &kmip.PlainKeyValue{KeyMaterial: kmip.KeyMaterial{Bytes: &[]byte{1, 2, 3, 4, 5, 6, 7, 8}}}}
+			}
+		}
+		if mask&4 != 0 {
+			kb.CryptographicAlgorithm = kmip.CryptographicAlgorithmAES
+		}
+		if mask&8 != 0 {
+			kb.CryptographicLength = 64
+		}
+		if mask&16 != 0 {
+			kb.KeyWrappingData = &kmip.KeyWrappingData{WrappingMethod: kmip.WrappingMethodEncrypt,
+				EncryptionKeyInformation: &kmip.EncryptionKeyInformation{UniqueIdentifier: "kek"}, IVCounterNonce: []byte{1, 2, 3}}
+		}
+		for v := 0; v <= 4; v += 2 {
+			var obj kmip.Object = &kmip.SymmetricKey{KeyBlock: kb}
+			ot := kmip.ObjectTypeSymmetricKey
+			if mask%2 == 1 {
+				obj, ot = &kmip.SecretData{SecretDataType: kmip.SecretDataTypePassword, KeyBlock: kb}, kmip.ObjectTypeSecretData
+			}
+			msg := &kmip.ResponseMessage{Header: kmip.ResponseHeader{ProtocolVersion: ver(v), TimeStamp: sampleTime, BatchCount: 1},
+				BatchItem: []kmip.ResponseBatchItem{{Operation: kmip.OperationGet, ResponsePayload: &payloads.GetResponsePayload{ObjectType: ot, UniqueIdentifier: "id", Object: obj}}}}
+			check(fmt.Sprintf("KeyBlock/%d/1.%d", mask, v), msg, func() any { return new(kmip.ResponseMessage) })
 		}
 	}
 	// C05: the elements of an item depend on the header version only, not on what precedes it in the batch: every payload is
